@@ -53,8 +53,12 @@ func genPortions(rt *rapid.T) portionsCase {
 	}
 	if chance(rt, 20, "genericQuery") {
 		c.Q = c11.GenScript(rt)
-		c.Text = c.Q.String()
 	}
+	if chance(rt, 30, "durAgg") {
+		// duration aggregate with any unit the lexer accepts (also `d`, which the planner rejects)
+		addDurationAgg(rt, &c.Q)
+	}
+	c.Text = c.Q.String()
 	return c
 }
 
@@ -149,8 +153,33 @@ func predPortions(c portionsCase, o *evid.Obs) (err error) {
 		for range ch {
 		}
 	}()
-	stmts := be.Statements()
 	portions := (c.Complexity + traceql_transpiler.COMPLEXITY_THRESHOLD - 1) / traceql_transpiler.COMPLEXITY_THRESHOLD
+	// The processor's loop stops at the first portion whose statement cannot be rendered. The
+	// plan object is then processed for the remaining portions here, with the same context:
+	// a query that is rejected has to be rejected identically on every execution.
+	rejected := false
+	if n := len(rec.snaps); procErr != nil && n > 0 && rec.errs[n-1] != nil {
+		rejected = true
+		for i := int64(n); i < portions; i++ {
+			pc.RandomFilter = shared.RandomFilter{Max: int(portions), I: int(i)}
+			func() {
+				defer func() {
+					if p := recover(); p != nil {
+						rec.errs = append(rec.errs, fmt.Errorf("panic: %v", p))
+					}
+				}()
+				if req, e := rec.Process(pc); e == nil {
+					// rendered after all: hand the statement to the database like the processor does
+					if str, e2 := req.String(&sql.Ctx{Params: map[string]sql.SQLObject{}, Result: map[string]sql.SQLObject{}}); e2 == nil {
+						if rows, e3 := pc.CHDb.QueryCtx(pc.Ctx, str); e3 == nil {
+							rows.Close()
+						}
+					}
+				}
+			}()
+		}
+	}
+	stmts := be.Statements()
 	if len(rec.snaps) == 0 {
 		return fmt.Errorf("harness: the plan was never processed (%v)", procErr)
 	}
@@ -163,8 +192,10 @@ func predPortions(c portionsCase, o *evid.Obs) (err error) {
 		fresh, ferr := renderFresh(script, snap)
 		if rec.errs[k] != nil {
 			if ferr != nil {
-				o.Discard("query-rejected")
-				return nil
+				if ferr.Error() != rec.errs[k].Error() {
+					return fmt.Errorf("query %q: portion %d/%d: the re-used plan fails with %q, a fresh plan with %q", text, snap.Filter.I, snap.Filter.Max, rec.errs[k], ferr)
+				}
+				continue // rejected identically
 			}
 			return fmt.Errorf("query %q: portion %d/%d (cached ids %d): the re-used plan fails (%v), a fresh plan renders the statement", text, snap.Filter.I, snap.Filter.Max, len(snap.Cached), rec.errs[k])
 		}
@@ -218,6 +249,11 @@ func predPortions(c portionsCase, o *evid.Obs) (err error) {
 			return fmt.Errorf("%s: the re-executed statement returns other rows (%d) than the statement of a fresh plan (%d)\nre-executed: %s\nfresh plan:  %s", where, len(b), len(a), clip(st.SQL), clip(fresh))
 		}
 		equivalent = true
+	}
+	if rejected {
+		o.Tag("rejected-identically-every-portion")
+		o.Discard("query-rejected")
+		return nil
 	}
 	if procErr != nil {
 		// every statement equalled the fresh one and still the run failed: not C14's matter
